@@ -230,7 +230,15 @@ func runC04(e *Engine, r *Report) {
 				entIndex := e.Field("raftpb", "Entry", "Index")
 				// exactly lastApply >= firstSave && lastApply <= lastSave: a stronger
 				// test would leave part of the overlap on the fast path
-				if hasCmpFactExact(fs, ">=", fieldV(entIndex), fieldV(entIndex)) && hasCmpFactExact(fs, "<=", fieldV(entIndex), fieldV(entIndex)) {
+				ce := e.Field("raftpb", "Update", "CommittedEntries")
+				es := e.Field("raftpb", "Update", "EntriesToSave")
+				var applyIdx VM = func(v ssa.Value) bool {
+					return fieldV(entIndex)(v) && e.dependsOn(v, func(x ssa.Value) bool { return fieldV(ce)(x) }, 0)
+				}
+				var saveIdx VM = func(v ssa.Value) bool {
+					return fieldV(entIndex)(v) && e.dependsOn(v, func(x ssa.Value) bool { return fieldV(es)(x) }, 0)
+				}
+				if hasCmpFactExact(fs, ">=", applyIdx, saveIdx) && hasCmpFactExact(fs, "<=", applyIdx, saveIdx) {
 					overlapGuard = true
 				}
 			}
